@@ -23,7 +23,8 @@ def vec_points(tier, elems=None, std=17, nonstd=True, ndebug=False, flavours=Non
                   ('fcv', 4, None, 'amc')]
         extra = [('NTR', 'vector', 0, 'u32', 'std'), ('TRnc', 'vector', 0, 'u32', 'realloc'), ('TC', 'small', 4, 'u8', 'amc'),
                  ('NTR', 'small', 12, 'u64', 'std'), ('TC', 'fcv', 4, None, 'amc', 'UncheckedGrowingPolicy'),
-                 ('NTR', 'fcv', 4, 'u32', 'amc'), ('NTR', 'vector', 0, 'u32', 'realloc'), ('NTR', 'small', 3, 'u16', 'realloc')]
+                 ('NTR', 'fcv', 4, 'u32', 'amc'), ('NTR', 'vector', 0, 'u32', 'realloc'), ('NTR', 'small', 3, 'u16', 'realloc'),
+                 ('double', 'small', 4, 'u32', 'amc'), ('int', 'vector', 0, 'u32', 'amc')]
         iters = ('ptr', 'input')
     else:
         elems = elems or ['TC', 'TRnc', 'NTR', 'NTRtm', 'OptOut', 'MoveOnly']
@@ -33,7 +34,8 @@ def vec_points(tier, elems=None, std=17, nonstd=True, ndebug=False, flavours=Non
                   ('small', 9, 'u64', 'realloc'), ('small', 4, 'i8', 'amc'), ('small', 4, 'u32', 'arena'),
                   ('fcv', 1, None, 'amc'), ('fcv', 4, None, 'amc'), ('fcv', 4, 'u32', 'amc'), ('fcv', 300, None, 'amc')]
         extra = [('TC', 'fcv', 4, None, 'amc', 'UncheckedGrowingPolicy'), ('NTR', 'fcv', 4, None, 'amc', 'UncheckedGrowingPolicy'),
-                 ('int', 'vector', 0, 'u32', 'amc'), ('char', 'small', 8, 'u32', 'amc'), ('char', 'small', 9, 'u32', 'amc')]
+                 ('int', 'vector', 0, 'u32', 'amc'), ('char', 'small', 8, 'u32', 'amc'), ('char', 'small', 9, 'u32', 'amc'),
+                 ('double', 'small', 4, 'u32', 'amc'), ('double', 'vector', 0, 'u32', 'std'), ('double', 'fcv', 4, None, 'amc')]
         iters = ('ptr', 'input', 'fwd', 'list', 'moveit')
     if flavours:
         combos = [c for c in combos if c[0] in flavours]
@@ -48,7 +50,7 @@ def vec_points(tier, elems=None, std=17, nonstd=True, ndebug=False, flavours=Non
                 pts.append(Point(u, elem=e, E=gen.ELEMS[e], flavour=fl, n=n, st=st, alloc=al, policy='ExceptionGrowingPolicy'))
     for x in extra:
         e, fl, n, st, al = x[:5]
-        if elems and e not in elems and e not in ('int', 'char'):
+        if elems and e not in elems and e not in ('int', 'char', 'double'):
             continue
         pol = x[5] if len(x) > 5 else 'ExceptionGrowingPolicy'
         u = gen.vec_unit(e, fl, n, st, al, iters=iters, std=std, nonstd=nonstd, ndebug=ndebug, policy=pol)
